@@ -1,4 +1,5 @@
 """C07 The multi-source generator yields every item exactly once and terminates."""
+from analysis.facts import norm_path
 from analysis.engine import rule, AnchorMissing
 from analysis import cfg
 from analysis.sym import sym, show_in, nosite, peel, core, walk, ret_values, args_of, guards_at, atoms_at, \
@@ -263,3 +264,38 @@ def r6(ctx):
     rvn = [v for v, bb in ret_values(n) if v[0] == 'agg' and v[2].endswith('Result::Ok')]
     good = len(rvn) == 1 and rvn[0][3][0][0] == 'agg' and match(rvn[0][3][0][3][4], Const(0))
     ctx.require(good, n, 'start-index', 'iteration starts at source 0', None)
+
+
+C07_PANIC_INVENTORY = {
+    # (function, kind) -> (allowed, reason)
+    (G + '::next_idx', 'assert'): (1, 'assert!(!self.all_finished()): next() calls next_idx() only behind the all_finished() early return (R-C07-2)'),
+    (G + '::next_idx', 'Result::expect'): (1, 'WeightedIndex::new over the lengths of the unfinished sources: non-empty behind the assert, lengths of unfinished sources are > 0'),
+}
+
+
+@rule('C07', 'R-C07-7', 'T9 PANIC-SITES (selection never aborts the stream)',
+      'the explicit panic sites (panic!/assert!/unwrap/expect) of next(), next_idx() and all_finished() are exactly the reviewed '
+      'inventory: a selection that can find "no candidate" and aborts loses the remaining items of the live sources')
+def r7(ctx):
+    from rules.common import panic_sites, closures_in
+    from rules.c13 import _site_kind
+    found = {}
+    n = 0
+    for name in ('<' + G + ' as std::iter::Iterator>::next', G + '::next_idx', G + '::all_finished'):
+        b0 = ctx.body(name)
+        for b in [b0] + closures_in(ctx, b0):
+            n += 1
+            for t, d in panic_sites(b):
+                k = _site_kind(t, d)
+                if k is not None:
+                    found.setdefault((norm_path(b.path), k), []).append((b, t))
+    for key in sorted(set(found) | set(C07_PANIC_INVENTORY)):
+        sites = found.get(key, [])
+        inv = C07_PANIC_INVENTORY.get(key)
+        if inv is None or len(sites) > inv[0]:
+            b, t = sites[-1]
+            ctx.fail(b, 'unreviewed-panic-site|' + key[1], '%s has %d `%s` site(s) (line %d), the reviewed inventory has %d: the stream can abort while sources still hold items' % (
+                key[0], len(sites), key[1], t.span['line'], inv[0] if inv else 0), t.span)
+        elif sites:
+            ctx.ok(sites[0][0], '%s: %d x `%s` -- %s' % (key[0], len(sites), key[1], inv[1]), sites[0][1].span)
+    ctx.ok(None, 'panic inventory of the multi-source generator: %d bodies scanned' % n)
